@@ -302,7 +302,7 @@ def conds(tier):
     return [
         xh.Cond(M, "c13_independence", t(300, 900), kind="shape-bounded", path_timeout=90, examples=["order=3", "order=14"],
                 bounds="all 15 ordered non-empty subsets of a 3-element instantiation list, class + function template, pybind"),
-        xh.Cond(M, "c13_independence_matlab", t(300, 900), kind="shape-bounded", path_timeout=90, examples=["order=3", "order=0"],
+        xh.Cond(M, "c13_independence_matlab", t(480, 1200), kind="shape-bounded", path_timeout=90, examples=["order=3", "order=0"],
                 bounds="all 15 ordered non-empty subsets, pybind and MATLAB classdefs"),
         xh.Cond(M, "c13_fresh_parses", t(240, 900), kind="shape-bounded", path_timeout=60, examples=["first=0, second=6, last=1", "first=2, second=0, last=1", "first=6, second=6, last=0", "first=3, second=4, last=5"],
                 bounds="6 module texts sharing qualified template names: %s earlier fresh parses before each text, compared with a pristine interpreter" % ("every sequence of 0-2" if not q else "0-2 (the second derived)")),
